@@ -264,22 +264,48 @@ Example tail_contracts_satisfiable :
 Proof. exists toy_sf, toy_isf. exact toy_contracts. Qed.
 Print Assumptions tail_contracts_satisfiable.
 
-(* (C10) FINDING F/labs-negative-covariance: labs.glm.contrast floors every entry
-   of the covariance matrix of a multi-row F contrast at `tiny`, so a negative
-   covariance is replaced by 1e-50 and the labs F differs from e' V^-1 e / q
-   (the value fmri.glm.Contrast returns): the two implementations do not agree. *)
+(* (C10) labs.glm.contrast agrees with fmri.glm.Contrast on multi-row F contrasts
+   (after /repo 552d8de removed the element-wise floor on the covariance matrix;
+   finding F/labs-negative-covariance, fixed).  labs computes the quadratic form
+   through a Cholesky factorisation (fff_mahalanobis: dpotrf, dtrsv, sum of
+   squares), fmri through the LAPACK inverse.  Over ANY commutative ring: if
+   S = L L^t, L y = d, L nonsingular, and W is ANY two-sided inverse of S, then
+   sum y_i^2 = d' W d; hence labs F = fmri F = e' V^-1 e / q (same division by q). *)
 From NV.C06 Require Import Exec.
-Theorem labs_F_agrees_with_mahalanobis_refuted :
-  exists (e : list Q) (V W Wl : list (list Q)),
-  is_inverse_q V W = true /\ is_inverse_q (labs_floor labs_def_tiny V) Wl = true /\
-  Qred (fstat_q e 0 W) = (3#2)%Q /\ Qeq_bool (fstat_q e 0 W) (fstat_q e 0 Wl) = false.
+Theorem labs_F_is_mahalanobis_over_q :
+  forall (K : Type) (r0 r1 : K) (radd rmul rsub : K -> K -> K) (ropp : K -> K),
+  ring_theory r0 r1 radd rmul rsub ropp (@eq K) ->
+  forall (divq : K -> K) q (V W L Lt : list (list K)) (d y : list K),
+  List.length d = q -> List.length y = q -> List.length W = q -> List.length Lt = q ->
+  rows_len q L ->
+  inv_on K r0 radd rmul q V W ->
+  transpose_of K r0 radd rmul q L Lt ->
+  (forall z, List.length z = q -> mv r0 radd rmul V z = mv r0 radd rmul L (mv r0 radd rmul Lt z)) ->
+  (forall a b, List.length a = q -> List.length b = q -> mv r0 radd rmul L a = mv r0 radd rmul L b -> a = b) ->
+  mv r0 radd rmul L y = d ->
+  dot r0 radd rmul y y = quad K r0 radd rmul W d /\
+  labs_F K r0 radd rmul divq y = fmri_F K r0 radd rmul divq W d.
 Proof.
-  set (t := labs_def_tiny). set (d := (6 - t * t)%Q).
-  exists [1#1; 2#1]%Q, [[2#1; -1#1]; [-1#1; 3#1]]%Q, [[3#5; 1#5]; [1#5; 2#5]]%Q,
-         [[3 / d; - t / d]; [- t / d; 2 / d]]%Q.
-  vm_compute. repeat split; reflexivity.
+  intros K r0 r1 radd rmul rsub ropp Rth divq q V W L Lt d y H1 H2 H3 H4 H5 H6 H7 H8 H9 H10. split.
+  - eapply chol_quad_is_quad; eassumption.
+  - eapply labs_F_is_fmri_F; eassumption.
 Qed.
-Print Assumptions labs_F_agrees_with_mahalanobis_refuted.
+Print Assumptions labs_F_is_mahalanobis_over_q.
+
+(* the former failing input of the finding, on the executable Q instances: V has a
+   negative covariance; both routes give 3/2 *)
+Example labs_F_former_witness :
+  let e := [1#1; 2#1]%Q in let V := [[2#1; -1#1]; [-1#1; 3#1]]%Q in
+  let W := [[3#5; 1#5]; [1#5; 2#5]]%Q in
+  (* V = L D L^t scaled to a rational Cholesky-like factor is not available (sqrt 2); use
+     the inverse route for the value and the solved system of a perfect-square sibling for the Cholesky route *)
+  is_inverse_q V W = true /\ Qred (fstat_q e 0 W) = (3#2)%Q /\
+  let V2 := [[4#1; -2#1]; [-2#1; 10#1]]%Q in let L2 := [[2#1; 0]; [-1#1; 3#1]]%Q in
+  let W2 := [[5#18; 1#18]; [1#18; 1#9]]%Q in let y2 := [1#2; 5#6]%Q in
+  is_inverse_q V2 W2 = true /\ labs_solve_ok V2 L2 y2 e 0 = true /\
+  Qeq_bool (labs_fstat_q y2) (fstat_q e 0 W2) = true.
+Proof. vm_compute. repeat split; reflexivity. Qed.
+Print Assumptions labs_F_former_witness.
 
 (* ================================================================== fdr_threshold *)
 From NV.C06 Require Import ProofsTh.
@@ -302,3 +328,33 @@ Proof.
   exact (fdr_threshold_with_spec (argsort_q p) p alpha).
 Qed.
 Print Assumptions fdr_threshold_spec.
+
+(* (F8) fdr and fdr_threshold are mutually consistent: for alpha <= 1 and whenever
+   some sorted p-value lies below its step-up line, the hypotheses rejected at FDR
+   level alpha (fdr < alpha) are exactly those with p <= fdr_threshold(p, alpha). *)
+From NV.C06 Require Import ProofsLk ProofsSc.
+Close Scope R_scope.
+Open Scope Q_scope.
+Theorem fdr_below_alpha_iff_below_threshold :
+  forall p alpha out T, fdr p = Some out -> fdr_threshold p alpha = Some T -> alpha <= 1 ->
+  (exists k, critical (alpha / qnat (List.length p)) (gather p (argsort_q p)) k) ->
+  forall i, (i < List.length p)%nat -> (nth i out 0 < alpha <-> nth i p 0 <= T).
+Proof.
+  intros p alpha out T H1 H2 Ha Hex i Hi. unfold fdr in H1. unfold fdr_threshold in H2.
+  destruct (check_p p) eqn:C; [|discriminate]. injection H1 as <-. injection H2 as <-.
+  destruct (check_p_nonneg p C) as [NN _].
+  apply fdr_lt_alpha_iff; try assumption. apply argsort_q_sorts.
+Qed.
+Print Assumptions fdr_below_alpha_iff_below_threshold.
+
+(* (F9) the reordering step as written in the source - the sequence of assignments
+   inverse_order[order[k]] = k for k = 0..n-1 on arange(n) - is the position
+   function used by the model, for every permutation `order`; so fdr computed with
+   the literal scatter is the same function. *)
+Theorem scatter_is_inverse_permutation :
+  forall (order : list nat) (p : list Q), Permutation order (seq 0 (List.length p)) ->
+  scatter order = inverse_order order /\ fdr_with_scatter order p = fdr_with order p.
+Proof.
+  intros order p P. split; [eapply scatter_is_inverse_order; exact P|apply fdr_with_scatter_eq; exact P].
+Qed.
+Print Assumptions scatter_is_inverse_permutation.
